@@ -1350,25 +1350,14 @@ def md10(F, R):
             elif g.kind == "variants" and strip_refs(g.term)[:2] == ("arg", 4):
                 if m not in tuple(g.variant):
                     cut.append((gb, gi))
-        # boolean temporaries set in the arms of a `matches!(mode, ..)`: decided once only one constant definition stays reachable
-        for _round in range(4):
-            # (the temporary may be set before the lookup: `let may_create = matches!(mode, ..)` - reachability from the entry)
-            rs = fn.reach([0], cut_edges=cut)
-            grew = False
-            for (gb, gi, g) in all_guards(fn):
-                t_ = strip_refs(g.term)
-                if g.kind == "bool" and t_[0] == "var" and gb in rs and (gb, gi) not in cut:
-                    vals = set()
-                    for d in fn.defs().get(t_[1], []):
-                        if d[0] == "assign" and d[1] in rs:
-                            dv = fn.term_of_rvalue(d[3], d[1])
-                            vals.add(bool(dv[1]) if dv[0] == "c" else None)
-                    if len(vals) == 1 and None not in vals and (list(vals)[0] != g.truth):
-                        cut.append((gb, gi))
-                        grew = True
-            if not grew:
-                break
-        creates = wn[0] in fn.reach([start], cut_edges=cut)
+        # boolean temporaries set in the arms of a `matches!(mode, ..)`: decided once only one constant definition stays
+        # reachable (the temporary may be set before the lookup - `let may_create = matches!(mode, ..)` - and may be tested
+        # through a copy: `match (lookup, may_create) { .. }`)
+        from .ev import resolve_bool_temps
+        cut = resolve_bool_temps(fn, cut)
+        # (the mode may have been asked before the error kind: `(Err(NotFound), true) => create` tests the flag first - then
+        # the NotFound edge itself is out of reach for the other modes)
+        creates = nf[0][0] in fn.reach([0], cut_edges=[e for e in cut if e not in premise]) and wn[0] in fn.reach([start], cut_edges=cut)
         R.require(creates == (m in want), fn, "notfound:" + m, "open mode %s on a missing name %s; the documentation says it %s" % (m, "goes on to create the file" if creates else "fails with NotFound", "creates it" if m in want else "fails with NotFound"), fn.loc(nf[0][0]))
 
 
